@@ -127,10 +127,10 @@ def extra(rng, tier):
             shape, _, _, xs, ys, flat = c04.gen_grid(rng, S)
             nx, ny = shape[0], shape[1]
             L = gen.lanes_of(shape, 2)
-            qx, qy = c04.queries2(rng, xs, ys, 3, S, ext=ext)
+            qx, qy = c04.queries2(rng, xs, ys, 8, S, ext=ext)
             if not qx:
                 continue
-            x, y = qx[0], qy[0]
+            x, y = rng.choice(qx), rng.choice(qy)      # any cell of the grid, not only the first one
             i, j = lin_bracket(xs, x), lin_bracket(ys, y)
             base = len(lines)
             lines.append(i2_line(S, xs, ys, shape, flat, ext, e_array(S, [1], [x], [y]), xlay=lx, ylay=ly, dlay=ld))
